@@ -1,0 +1,30 @@
+//go:build verif
+
+package ziptree
+
+// VerifNode is one node of the tree in pre-order: key, drawn rank and the positions of its children in the
+// dump (-1 = none). Verification harness only (build tag verif).
+type VerifNode struct {
+	Key         []byte
+	Rank        uint32
+	Left, Right int
+}
+
+// VerifDump returns the shape of the tree in pre-order.
+func (t *ZipTree) VerifDump() []VerifNode {
+	var out []VerifNode
+	var walk func(n *Node) int
+	walk = func(n *Node) int {
+		if n == nil {
+			return -1
+		}
+		i := len(out)
+		out = append(out, VerifNode{Key: n.Key, Rank: n.rank})
+		l := walk(n.left)
+		r := walk(n.right)
+		out[i].Left, out[i].Right = l, r
+		return i
+	}
+	walk(t.root)
+	return out
+}
